@@ -69,6 +69,38 @@ func runC05(r *core.Run) {
 		}
 	}
 	nbhdSub(r, "nbhd-spec/all+attr+autoid", core.MustCfg("all+attr+autoid"), func(s *core.Sub, cv *core.Conv, w []byte) { c05Case(s, cv, w) })
+	// footnote documents built from the C16 menu (references and definitions of three labels in every position): the
+	// footnote transformer re-orders and removes nodes, which is where tree links can go stale
+	{
+		menu := c16Menu()
+		idx := make([]string, len(menu))
+		for i := range idx {
+			idx[i] = string([]byte{byte(i)})
+		}
+		for _, cn := range []string{"footnote", "all+attr+autoid"} {
+			cfg := core.MustCfg(cn)
+			wordsSub(r, "footnote-sequences/"+cn, fmt.Sprintf("every sequence of ≤%d items from the %d-item footnote menu of C16 joined by blank lines, parsed under %s; every node validated", core.Pick(r, 3, 4), len(menu), cn),
+				idx, core.Pick(r, 3, 4), func(s *core.Sub, w int) func([]byte) uint64 {
+					cv := core.NewConv(cfg)
+					var b strings.Builder
+					return func(word []byte) uint64 {
+						b.Reset()
+						for i, c := range word {
+							if i > 0 {
+								b.WriteString("\n\n")
+							}
+							b.WriteString(menu[c].md)
+						}
+						doc := []byte(b.String())
+						c05Case(s, cv, doc)
+						s.Evals.Add(1)
+						return core.Hash(doc)
+					}
+				})
+		}
+	}
+	replSub(r, "replication/all+attr+autoid", core.MustCfg("all+attr+autoid"), core.Pick(r, 150, 300), func(s *core.Sub, cv *core.Conv, w []byte) { c05Case(s, cv, w) })
+	attrSub(r, "attributes/all+attr+autoid", core.MustCfg("all+attr+autoid"), core.Pick(r, 4, 5), func(s *core.Sub, cv *core.Conv, w []byte) { c05Case(s, cv, w) })
 	for _, cn := range []string{"core", "all+attr+autoid"} {
 		nestSub(r, "nesting/"+cn, core.MustCfg(cn), core.Pick(r, 3, 4), func(s *core.Sub, cv *core.Conv, w []byte) { c05Case(s, cv, w) })
 	}
